@@ -48,6 +48,8 @@ def probe(n, tag):
     if log.sched is not None:
         log.sched.arrive(log.thread)
     c = ag_ctx.control_status_ctx()
+    if tag == 'in':
+        n.cur = c            # `ctx = control_status_ctx()` at the start of the body, handed down to its callees
     # a converted body reaches this artifact through converted_call -> _call_unconverted
     conv = sys._getframe(1).f_code.co_name == '_call_unconverted'
     et = sys.exc_info()[0]
@@ -76,6 +78,16 @@ class Node(object):
         self.raises = raises
         self.exc_type = ProbeAbort if raises == 2 else ProbeError
         self.children = []
+        self.parent = None   # the calling body's node
+        self.cur = None      # the context this node's body captured when it started (probe 'in')
+
+    def captured(self, up):
+        """The context captured by the body `up` levels outside the calling body (beyond the driver: the driver's)."""
+        a = self.parent
+        for _ in range(up):
+            if a.parent is not None:
+                a = a.parent
+        return a.cur
 
     @property
     def fn(self):
@@ -95,6 +107,10 @@ class Node(object):
         if w == 'ic':
             if k['src'] == 'cur':
                 ctx = ag_ctx.control_status_ctx()
+            elif k['src'] in ('up1', 'up2'):
+                # a context object that is already on this thread's stack, below the current one: convert()
+                # re-enters that very object (`with conversion_ctx:`)
+                ctx = self.captured(int(k['src'][2]))
             else:
                 ctx = ag_ctx.ControlStatusCtx(status=STATUS[k['src']])
             self.log.keep.append(ctx)
@@ -132,6 +148,7 @@ def build(tree, log):
     for i, rec in enumerate(tree):
         nd = Node(-1, rec['k'], log, rec['catch'], rec['raises'])
         nodes.append(nd)
+        nd.parent = nodes[rec['p']]
         nodes[rec['p']].children.append(nd)
     return nodes[0]
 
